@@ -578,6 +578,37 @@ func runC09(c *h.Ctx) {
 			vars = stdVars1
 		}
 		doc := gen.Doc(r, d)
+		if i%16 == 9 {
+			// the same literal subscript applied, in one execution, to arrays
+			// of different lengths (in bounds for one, out of bounds for another)
+			lens := []int{1 + r.IntN(3), 1 + r.IntN(3), 1 + r.IntN(3)}
+			rows := make([]string, len(lens))
+			for ri, ln := range lens {
+				el := make([]string, ln)
+				for ei := range el {
+					el[ei] = fmt.Sprintf(`{"x":%d}`, 10*ri+ei)
+				}
+				rows[ri] = "[" + strings.Join(el, ",") + "]"
+			}
+			doc = `{"a":[` + strings.Join(rows, ",") + `]}`
+			sub := [][2]*gen.N{{&gen.N{K: gen.KInt, I: int64(r.IntN(3))}, nil}}
+			if r.IntN(3) == 0 {
+				sub[0][1] = &gen.N{K: gen.KInt, I: int64(1 + r.IntN(2))}
+			}
+			if r.IntN(4) == 0 {
+				sub = append(sub, [2]*gen.N{{K: gen.KInt, I: 0}, nil})
+			}
+			chain = &gen.N{K: gen.KRoot, Next: &gen.N{K: gen.KKey, S: "a", Next: &gen.N{K: gen.KAnyArray, Next: &gen.N{K: gen.KIndex, Subs: sub}}}}
+			if r.IntN(2) == 0 {
+				chain.Append(&gen.N{K: gen.KKey, S: "x"})
+			}
+			nsteps = 0
+			for x := chain.Next; x != nil; x = x.Next {
+				nsteps++
+			}
+			lax = r.IntN(3) == 0
+			vars = stdVars1
+		}
 		if i%12 == 7 && nsteps >= 3 {
 			// the first steps inside a parenthesised unary expression, the
 			// rest applied to every item it yields: (-$.a[*]) ? (@ < -4) ...
